@@ -42,3 +42,131 @@ def u_l_sus(ctx):
     ctx.prove("tiled choice: divmod gives q tiles and a remainder r < m of distinct options, so every option is used q or q+1 times "
               "and the counts differ by at most one", [m >= 1, ns >= 0, ns == q * m + r, 0 <= r, r < m],
               z3.And(q >= 0, q * m <= ns, ns < (q + 1) * m))
+
+
+# ---------------------------------------------------------------------------------------------------
+# A2: the pointer walk of stochastic_universal_sampling, for all n, k, weights and generator outcomes
+import numpy
+from pyvc import loopcut, npmodel
+from pyvc.arr import EArr
+from pyvc.sym import cur, _t, fresh_int, fresh_real, wrap
+
+SAMP = "pybrops/core/random/sampling.py"
+
+
+@unit(P, "loop[stochastic_universal_sampling: k draws, every pointer served by the element that owns it, zero weight never selected]", "A2",
+      targets=[SAMP + ":stochastic_universal_sampling"])
+def u_sus_loop(ctx):
+    """pre: a, p of length n >= 1, p >= 0, sum(p) > 0, size = k >= 1 (an integer), rng arbitrary.
+    post (reals): exactly k selections; writing c for the cumulative weights in descending order, pointer g = offset + g*sum/k is
+    served by the element at sorted position w with  c[m] <= pointer for all m < w  and  (pointer < c[w] or w is the last
+    positive position); w is a positive-weight position; the output is a[.] of a permutation of those selections."""
+    box = {}
+
+    class Rng:
+        def __init__(self):
+            self.calls = []
+
+        def uniform(self, lo, hi, size=None):
+            e = cur()
+            r = fresh_real("offset")
+            e.assume(z3.And(r.t >= _t(lo), r.t <= _t(hi)))     # [low, high); numpy may return high by rounding
+            self.calls.append(("uniform", lo, hi, size))
+            box["draw"] = r
+            return r
+
+        def shuffle(self, arr):
+            e = cur()
+            n = _t(arr.shape[0])
+            PI = z3.Function(e.fresh_name("pi"), z3.IntSort(), z3.IntSort())
+            PINV = z3.Function(e.fresh_name("piinv"), z3.IntSort(), z3.IntSort())
+            i = z3.Int("q_i")
+            e.assume(z3.ForAll([i], z3.Implies(z3.And(0 <= i, i < n), z3.And(0 <= PI(i), PI(i) < n, PINV(PI(i)) == i)), patterns=[PI(i)]))
+            e.assume(z3.ForAll([i], z3.Implies(z3.And(0 <= i, i < n), z3.And(0 <= PINV(i), PINV(i) < n, PI(PINV(i)) == i)), patterns=[PINV(i)]))
+            old = arr._at
+            box["pre_shuffle"] = old
+            box["PI"] = PI
+            arr._at = lambda k: old(PI(k))
+            self.calls.append(("shuffle", arr))
+
+    def own(w, x, c, npos):
+        """sorted position w owns pointer value x"""
+        m = z3.Int("q_m")
+        last = z3.If(npos - 1 > 0, npos - 1, 0)
+        return z3.And(0 <= w, w <= last, z3.ForAll([m], z3.Implies(z3.And(0 <= m, m < w), c.at(m) <= x)),
+                      z3.Or(x < c.at(w), w >= npos - 1))
+
+    def outer(st):
+        c, idx, ptrs, npos, INV = st["cumsum"], st["indices"], st["ptrs"], _t(st["npos"]), box["INV"]()
+        sel, ix, j = st["sel"], _t(st["ix"]), _t(st["_k"])
+        box["ptrs"], box["c"], box["npos"] = ptrs, c, npos
+        g, m = z3.Ints("q_g q_m")
+        n = _t(idx.shape[0])
+        d = {}
+        d["length"] = _t(sel.vlen()) == j
+        d["served"] = z3.ForAll([g], z3.Implies(z3.And(0 <= g, g < j),
+                                               z3.And(0 <= sel.at(g), sel.at(g) < n, own(n - 1 - INV(sel.at(g)), ptrs.at(g), c, npos))))
+        d["cursor"] = z3.And(z3.Implies(j == 0, ix == 0), z3.Implies(j >= 1, ix == n - 1 - INV(sel.at(j - 1))))
+        return d
+
+    def inner(st):
+        c, npos, ptr = st["cumsum"], _t(st["npos"]), _t(st["ptr"])
+        ix, ix0 = _t(st["ix"]), _t(st["_pre"]["ix"])
+        m = z3.Int("q_m")
+        last = z3.If(npos - 1 > 0, npos - 1, 0)
+        return {"range": z3.And(ix0 <= ix, ix <= last),
+                "passed": z3.ForAll([m], z3.Implies(z3.And(ix0 <= m, m < ix), c.at(m) <= ptr))}
+    f = loopcut.Extracted(SAMP + ":stochastic_universal_sampling", loop_specs={"0": outer, "0.0": inner})
+    ex = ctx.explorer()
+    ctx.trust("real arithmetic for the weights (float rounding of the pointers is known finding C17-F37)",
+              "a sum of non-negative weights that is positive has a positive term (so at least one positive position exists)")
+
+    def thunk():
+        e = cur()
+        n, k = fresh_int("n", 1), fresh_int("k", 1)
+        a = EArr.fresh("a", (n,), numpy.int64)
+        p = EArr.fresh("p", (n,), numpy.float64)
+        i = z3.Int("q_i")
+        e.assume(z3.ForAll([i], z3.Implies(z3.And(0 <= i, i < n.t), p._fn(i) >= 0), patterns=[p._fn(i)]))
+        tot = npmodel.el_sum(p)
+        e.assume(tot.t > 0)
+        e.assume(z3.Exists([i], z3.And(0 <= i, i < n.t, p._fn(i) > 0)))      # trusted: positive sum of non-negatives
+        rng = Rng()
+        box["INV"] = lambda: [r for _, _, r in e.memo["argsorts"]][0]["INV"]
+        out = f(a, p, k, rng)
+        rec = [r for _, _, r in e.memo["argsorts"]][0]
+        asc, INV = rec["asc"], rec["INV"]
+        e.prove("sus:post:k-draws-in-the-requested-shape", z3.And(out.ndim == 1, _t(out.shape[0]) == k.t))
+        e.prove("sus:entropy:one-offset-then-one-shuffle-on-the-given-generator",
+                [c[0] for c in rng.calls] == ["uniform", "shuffle"] and rng.calls[0][3] is None)
+        g = z3.Int(e.fresh_name("g"))
+        e.assume(z3.And(0 <= g, g < k.t))
+        sel_g = box["pre_shuffle"](g)
+        w = n.t - 1 - INV(sel_g)
+        e.prove("sus:post:selected-index-in-range", z3.And(0 <= sel_g, sel_g < n.t))
+        e.prove("sus:post:zero-weight-never-selected", p.at(sel_g) > 0)
+        # the pointers are the specification's: offset + g * sum/k with 0 <= offset < sum/k taken from the one uniform draw
+        step = tot.t / z3.ToReal(k.t)
+        off = z3.If(box["draw"].t >= step, z3.RealVal(0), box["draw"].t)
+        e.prove("sus:post:pointer-g==offset+g*sum/k with 0<=offset<sum/k",
+                z3.And(_t(box["ptrs"].shape[0]) == k.t, box["ptrs"].at(g) == off + step * z3.ToReal(g), 0 <= off, off < step))
+        e.prove("sus:post:uniform-draw-requested-on-[0,sum/k)", z3.And(_t(rng.calls[0][1]) == 0, _t(rng.calls[0][2]) == step))
+        e.prove("sus:post:pointer-g-is-served-by-the-position-that-owns-it", own(w, box["ptrs"].at(g), box["c"], box["npos"]))
+        m_ = z3.Int(e.fresh_name("m"))
+        e.assume(z3.And(0 <= m_, m_ < n.t))
+        e.prove("sus:post:running-sums-are-those-of-the-weights-in-descending-order",
+                z3.And(box["c"].at(m_) == z3.If(m_ == 0, z3.RealVal(0), box["c"].at(m_ - 1)) + p.at(asc.at(n.t - 1 - m_)),
+                       z3.Implies(m_ >= 1, p.at(asc.at(n.t - 1 - m_)) <= p.at(asc.at(n.t - m_)))))
+        e.prove("sus:post:output-is-a-permutation-of-the-selections", out.at(g) == a.at(box["pre_shuffle"](box["PI"](g))))
+        # ownership restated on the sorted weights q[m] = p[asc[n-1-m]] and their running sums
+        q = lambda m_: p.at(asc.at(n.t - 1 - m_))
+        e.prove("sus:post:served-position-has-positive-weight", q(w) > 0)
+        e.prove("sus:canary:first-element-always-selected", sel_g == asc.at(n.t - 1), expect="fail", timeout_ms=2000)
+        return "ok"
+    with npmodel.patched_numpy():
+        outs = ex.explore(thunk)
+    ctx.absorb(ex)
+    raised = [o for o in outs if isinstance(o, sym.Raised)]
+    ctx.record("sus:noraise", not raised, kind="noraise", detail="; ".join(repr(r) + r.tb[-1500:] for r in raised[:1]))
+    ctx.record("sus:every-loop-cut", f.loops_cut == set(f.loops), kind="cover", detail=str(f.loops))
+    ctx.record("sus:returns-on-some-path (cover)", any(o == "ok" for o in outs), kind="cover")
